@@ -677,9 +677,9 @@ func run(c *vf.Ctx) {
 	c.Floor("requests compared", c.Counter("requests_compared"), c.N(100, 1000))
 	c.Floor("entries compared", c.Counter("entries_compared"), c.N(500, 5000))
 	c.Floor("formats", c.SeenCount("formats"), 4)
-	c.Floor("tree-ish kinds", c.SeenCount("treeish_kinds"), 8)
-	c.Floor("filter kinds", c.SeenCount("filter_kinds"), 6)
-	c.Floor("tree features", c.SeenCount("tree_features"), 8)
+	c.Floor("tree-ish kinds", c.SeenCount("treeish_kinds"), c.N(7, 9))
+	c.Floor("filter kinds", c.SeenCount("filter_kinds"), c.N(5, 7))
+	c.Floor("tree features", c.SeenCount("tree_features"), c.N(7, 10))
 	c.Assume("git 2.39.5 `git archive` (tar.umask default 002, no export-ignore/export-subst attributes, bare repository) is the reference")
 	c.Assume("compared per entry name: type, size, content SHA-256, link target, mtime, pax global header comment / zip comment; tar permission bits exactly, zip only the exec bit (git stores no unix mode for non-executable files in zip); entry order, uid/gid/uname, compression level and zip extra fields are not compared")
 	c.Assume("for tree-ish without a commit (tree id, rev:path) both sides use the current time; only 'is within the evaluation window' is checked")
